@@ -38,7 +38,8 @@ ASSUMPTIONS = [
 REACH = {t: ["versions_11", "all_256_message_types", "rssi_min", "rssi_max", "empty_payload", "max_payload",
              "unicast", "multicast", "broadcast", "ignored_type", "join", "leave", "deny", "v14_layout",
              "pre_v14_layout", "versions_mixed_in_one_process", "own_address_changed_mid_run",
-             "same_application_reconnected_to_another_version", "join_callbacks_back_to_back"] for t in ("quick", "thorough")}
+             "same_application_reconnected_to_another_version", "join_callbacks_back_to_back",
+             "unicast_during_network_info_reload"] for t in ("quick", "thorough")}
 SHARD_TIMEOUT = {"quick": 900, "thorough": 3600}
 ID_INCOMING = 0x45
 ID_TCJOIN = 0x24
@@ -59,6 +60,14 @@ def enc_incoming(V, seq, f):
 def enc_tcjoin(V, seq, f):
     body = X.u16(f["nwk"]) + f["ieee"] + X.u8(f["status"]) + X.u8(f["decision"]) + X.u16(f["parent"])
     return X.response_header(V, seq, ID_TCJOIN, callback=True) + body
+
+
+def ncp_node_id(ncp):
+    net = ncp.state.get("net") if hasattr(ncp, "state") else None
+    try:
+        return int(net.network["node_id"])
+    except Exception:  # noqa: BLE001
+        return 0x0000
 
 
 def shards(tier, seed):
@@ -134,6 +143,49 @@ def run_shard(desc) -> Acc:
                 acc.hit("same_application_reconnected_to_another_version" if nv != versions[0] or True else "x")
                 acc.hit("v14_layout" if nv >= 14 else "pre_v14_layout")
             V, app, ncp, own_nwk, rec = ctx[:5]
+            if i % 173 == 100:
+                # the network information is re-read while traffic keeps arriving (zigpy's periodic backup
+                # does this on a running network): unicasts delivered meanwhile are still addressed to us
+                ncp.think_time = 0.002
+                reload_ = asyncio.ensure_future(app.load_network_info(load_devices=False))
+                bad_dst = None
+                n_during = 0
+                for k_ in range(400):
+                    await asyncio.sleep(0.0005)
+                    if reload_.done():
+                        break
+                    f_ = dict(type=0, profile=0x0104, cluster=6, src_ep=1, dst_ep=1, options=0, group=0, aps_seq=k_ & 0xFF, lqi=200, rssi=-40,
+                              sender=0x1234, binding=0, address=0, payload=b"during-reload", eui64=bytes(8), timestamp=0)
+                    rec.clear()
+                    # (callbacks carry the sequence number of the last *completed* command)
+                    cs_ = (ncp.requests[-1][3] - 1) % 256 if ncp.requests else seq
+                    app._ezsp.frame_received(enc_incoming(V, cs_, f_))
+                    await asyncio.sleep(0)
+                    pk_ = [r for r in rec if r[0] == "packet"]
+                    n_during += 1
+                    if len(pk_) != 1:
+                        bad_dst = ("packets", len(pk_))
+                        break
+                    d_ = int(pk_[0][1].dst.address)
+                    try:
+                        new_own = int(app.state.node_info.nwk)
+                    except Exception:  # noqa: BLE001
+                        new_own = None
+                    if d_ not in (own_nwk, ncp_node_id(ncp)):
+                        bad_dst = ("dst", d_, own_nwk, new_own)
+                        break
+                ncp.think_time = 0.0
+                try:
+                    await asyncio.wait_for(reload_, 60)
+                except BaseException as ex_:  # noqa: BLE001
+                    acc.notes.append(f"load_network_info during traffic ended with {ex_!r}")
+                if bad_dst is not None:
+                    acc.violation("C13/incoming/destination-wrong",
+                                  f"a unicast delivered while the network information was being re-read: {bad_dst} (own address {own_nwk:#06x})",
+                                  {"version": V, "mix": versions, "reconnect": desc.get("reconnect"), "kind": "incoming-during-reload"})
+                elif n_during:
+                    acc.hit("unicast_during_network_info_reload")
+                ctx[3] = own_nwk = int(app.state.node_info.nwk)
 
             def inject(frame):
                 rec.clear()
@@ -153,6 +205,7 @@ def run_shard(desc) -> Acc:
                          rssi=rnd.choice([-128, 127, 0, -1, rnd.randrange(-128, 128)]), sender=rnd.randrange(65536),
                          binding=rnd.randrange(256), address=rnd.randrange(256), payload=rnd.randbytes(plen),
                          eui64=rnd.randbytes(8), timestamp=rnd.getrandbits(32))
+                seq = (ncp.requests[-1][3] - 1) % 256 if ncp.requests else 200  # a completed command's sequence
                 frame = enc_incoming(V, seq, f)
                 case = {"version": V, "mix": versions, "reconnect": desc.get("reconnect"), "kind": "incoming", "fields": {k: (v.hex() if isinstance(v, bytes) else v) for k, v in f.items()},
                         "frame": frame.hex()}
@@ -223,6 +276,7 @@ def run_shard(desc) -> Acc:
                     f = dict(nwk=rnd.randrange(65536), ieee=rnd.choice([rnd.randbytes(8), lumi, bytes([b_ + 1]) + lumi[1:5] + bytes([0x44, 0xEF, 0x54])]),
                              status=st_, decision=dec, parent=rnd.randrange(65536))
                     fields_all.append({k: (v.hex() if isinstance(v, bytes) else v) for k, v in f.items()})
+                    seq = (ncp.requests[-1][3] - 1) % 256 if ncp.requests else 200
                     frames.append(enc_tcjoin(V, seq, f))
                     if st_ == 2:
                         want.append(("leave", f["nwk"], f["ieee"]))
